@@ -3,7 +3,9 @@
 from __future__ import annotations
 
 import ast
+import re
 
+from ..alpha import Loc
 from ..cfg import CFG
 from ..const import Folder
 from ..flow import Slicer, flat_guards, parent_map
@@ -280,30 +282,50 @@ def check(model: Model, run: Run) -> None:
     run.rule('C04.R5', 'Cache.in_cache says "already sent" only when the cached route has the same attribute index AND the same next hop index', floor=2)
     ic = model.func(CACHE + '.in_cache')
     run.analysed(ic)
-    cmps = {}
+    il = Loc(model, ic)
+    rparam = ic.node.args.args[1].arg if len(ic.node.args.args) > 1 else '?'
+    cvars = il.from_value(lambda v: 'self._seen' in il.expand(v) and ('%s.index()' % rparam) in il.expand(v))
+    cvars = [c for c in cvars if not any(il.reads(v) & (set(cvars) - {c}) for v in il.values(c))]
+
+    def canon(e: ast.AST) -> str:
+        t = il.expand(e, keep=cvars)
+        for c in cvars:
+            t = re.sub(r'\b%s\b' % re.escape(c), '$C', t)
+        return re.sub(r'\b%s\b' % re.escape(rparam), '$R', t)
+
+    # equality tests that decide the answer: `if X != Y: return False`, or `X == Y` flowing into the returned value
+    decided: dict[frozenset[str], ast.AST] = {}
+
+    def eqs(e: ast.AST, positive: bool) -> None:
+        if isinstance(e, ast.BoolOp) and isinstance(e.op, ast.And) and positive:
+            for v in e.values:
+                eqs(v, positive)
+        elif isinstance(e, ast.UnaryOp) and isinstance(e.op, ast.Not):
+            eqs(e.operand, not positive)
+        elif isinstance(e, ast.Compare) and len(e.ops) == 1 and isinstance(e.ops[0], ast.Eq if positive else ast.NotEq):
+            decided[frozenset((canon(e.left), canon(e.comparators[0])))] = e
+
+    exits = []
     for n in walk_no_nested(ic.node):
-        if isinstance(n, ast.If) and isinstance(n.test, ast.Compare) and isinstance(n.test.ops[0], ast.NotEq):
-            rets = [s for s in n.body if isinstance(s, ast.Return)]
-            if rets and folder.fold(rets[0].value, ic.module, ic.cls) is False:
-                cmps[norm(n.test)] = n
-    sl2 = Slicer(model, ic)
-    has_attr = any('cached.attributes.index()' in k and 'route.attributes.index()' in k for k in cmps)
-    has_nh = False
-    for k, n in cmps.items():
-        names = [x for x in ast.walk(n.test) if isinstance(x, ast.Call) and isinstance(x.func, ast.Attribute) and x.func.attr == 'index' and isinstance(x.func.value, ast.Name)]
-        srcs = set()
-        for c in names:
-            for v, _ in sl2.defs.get(c.func.value.id, []):
-                srcs.add(norm(v))
-        if {'cached.nexthop', 'route.nexthop'} <= srcs or ('cached.nexthop.index()' in k and 'route.nexthop.index()' in k):
-            has_nh = True
+        if isinstance(n, ast.If):
+            rets = [x for x in n.body if isinstance(x, ast.Return)]
+            if rets and folder.fold(rets[0].value, ic.module, ic.cls) is False and not n.orelse:
+                eqs(n.test, False)
+                exits.append(n)
+        elif isinstance(n, ast.Return) and n.value is not None:
+            vals = [n.value] + (il.values(n.value.id) if isinstance(n.value, ast.Name) else [])
+            for v in vals:
+                eqs(v, True)
+    has_attr = frozenset(('$C.attributes.index()', '$R.attributes.index()')) in decided
+    has_nh = frozenset(('$C.nexthop.index()', '$R.nexthop.index()')) in decided
     true_rets = [r for r in walk_no_nested(ic.node) if isinstance(r, ast.Return) and folder.fold(r.value, ic.module, ic.cls) is True]
-    last_cmp = max((n.lineno for n in cmps.values()), default=0)
+    last_cmp = max((n.lineno for n in exits), default=0)
+    if len(cvars) != 1:
+        run.cannot('Cache.in_cache: lookup of the cached route in self._seen by the route index not found (shape not understood)')
     run.check(has_attr, ic.qualname, 'different attributes -> not in cache', ic.loc(), 'a route whose attributes changed must be re-announced')
     run.check(has_nh, ic.qualname, 'different next hop -> not in cache', ic.loc(), 'a route whose next hop changed must be re-announced')
-    run.check(len(true_rets) == 1 and true_rets[0].lineno > last_cmp, ic.qualname, 'return True only after both comparisons', ic.loc(true_rets[0]) if true_rets else ic.loc(), 'no early "already sent" answer')
-    # key lookup uses the route index
-    run.check('.get(route.index(), None)' in norm(ic.node) or '[route.index()]' in norm(ic.node), ic.qualname, 'looked up by route.index()', ic.loc(), 'lookup key must be the route index')
+    run.check(all(r.lineno > last_cmp for r in true_rets), ic.qualname, 'no `return True` before the comparisons', ic.loc(true_rets[0]) if true_rets else ic.loc(), 'no early "already sent" answer')
+    run.check(len(cvars) == 1, ic.qualname, 'looked up in self._seen by route.index()', ic.loc(), 'lookup key must be the route index')
 
     # ------------------------------------------------------------------ R7 add_to_rib
     run.rule('C04.R7', 'add_to_rib queues unless the identical route is cached and force is false; del_from_rib hands the route\'s own nlri/attributes/index to the shared removal', floor=2)
